@@ -206,7 +206,7 @@ example : cutEval exStrat exα 8 [] (some 6) = false ∧ lfp (reduct exStrat (cu
   decide
 example : cutEval exStrat exα 8 [] (some 7) = false ∧ cutEval exStrat exβ 8 [] (some 7) = true := by decide
 
-/-- `exNeg` (`p :- \+p`) has no stratification with … any level mapping: the hypothesis is not vacuous-by-default. -/
+/-- `exNeg` (`p :- \\+p`) is not stratified by any level mapping: `Stratified` really excludes negative cycles. -/
 theorem C09_exNeg_not_stratified (lvl : Nat → Nat) : ¬ Stratified exNeg lvl := by
   simp [Stratified, stratifiedBy, exNeg, stratKey]
 
